@@ -88,6 +88,10 @@ pub fn signature(c: &MultiCase) -> Option<&'static str> {
         if it.stale_reap_seen {
             return Some("remove_then_retain_before_repaint");
         }
+        if it.empty_suspend_line_seen {
+            // the C01 finding F-C01b seen through a MultiProgress
+            return Some("ordinary_empty_line_after_text_only_draw");
+        }
     }
     None
 }
@@ -232,6 +236,7 @@ pub fn property() -> Property {
                 signature,
                 essential: &["two_bars_alive", "insert", "insert_from_back", "insert_before", "insert_after", "slot_reuse_after_removal", "head_zombie_reaped", "non_head_zombie", "bar_println", "static_block", "bottom_alignment_shrink"],
                 workers: w,
+                decode: Some(|u| decode_multi(u, 0)),
             }),
             Box::new(Gen::<ThreadsCase> {
                 name: "threads",
@@ -246,6 +251,7 @@ pub fn property() -> Property {
                 signature: no_signature,
                 essential: &["several_frames", "rate_limited"],
                 workers: 2,
+                decode: None,
             }),
         ],
     }
